@@ -103,6 +103,14 @@ def check_thin(rep, sc, threads, rng, idx, tier):
     if idx % 5 == 0:
         # a reduction named on a map without thickness has nothing to reduce: same pixels, same mask
         kw["operation"] = OPS[(idx // 5) % len(OPS)]
+    nan_ids = set()
+    if idx % 9 == 4:
+        # undefined values in the FIRST layer's data: they are missing in that layer and nowhere else
+        nan_ids = {k for k in range(1, len(sc["m"]["cells"]) + 1) if k % 3 == 0}
+        dvals = dg["density"].values.copy()
+        for k in nan_ids:
+            dvals[k - 1] = np.nan
+        dg["density"] = osyris.Array(dvals, unit="g/cm**3")
     layers = [dg.layer("density"), dg.layer("level"), dg.layer("velocity", mode="vec")]
     table = sc["table"][0]
     ids = np.array([[table[j][i][0] for i in range(nx)] for j in range(ny)])
@@ -123,7 +131,7 @@ def check_thin(rep, sc, threads, rng, idx, tier):
             rep.mismatch({"module": "MapMachine", "field": "raises", "kind": "thin"}, f"{describe(sc, kw)}: map raised {type(e).__name__}: {e}", case={"sc": sc, "idx": idx}, module="maps")
             return
         results.append(p)
-        d = compare_thin(sc, p, ids, table, vec, f, scale, unit, den, nd, nx, ny)
+        d = compare_thin(sc, p, ids, table, vec, f, scale, unit, den, nd, nx, ny, nan_ids)
         if d:
             rep.mismatch({"module": "MapMachine", "field": d.split(":")[0], "kind": "thin"}, f"{describe(sc, kw)} threads={t}: {d}", case={"sc": sc, "idx": idx}, module="maps")
             return
@@ -162,7 +170,7 @@ def describe(sc, kw):
             f" nz={sc['nz']} sz={sc['sz']}, dx={kw.get('dx')}, resolution={kw.get('resolution')}")
 
 
-def compare_thin(sc, p, ids, table, vec, f, scale, unit, den, nd, nx, ny):
+def compare_thin(sc, p, ids, table, vec, f, scale, unit, den, nd, nx, ny, nan_ids=()):
     import numpy as np
     from .units_map import sparse_of_pint
     cx = np.array([(2 * i - nx + 1) * sc["s"] for i in range(nx)]) * f * scale
@@ -177,11 +185,14 @@ def compare_thin(sc, p, ids, table, vec, f, scale, unit, den, nd, nx, ny):
         for i in range(nx):
             cand = table[j][i]
             allowed = [cand[0]] if cand[0] != -2 else cand[1:]
-            masked = bool(np.ma.getmaskarray(dens["data"])[j, i])
+            dmasked = bool(np.ma.getmaskarray(dens["data"])[j, i]) or math.isnan(float(np.ma.getdata(dens["data"])[j, i]))
             lmasked = bool(np.ma.getmaskarray(lev["data"])[j, i])
             vmasked = bool(np.ma.getmaskarray(vel["data"])[j, i].all())
-            if masked != lmasked or masked != vmasked:
+            masked = lmasked
+            if lmasked != vmasked or (not dmasked and lmasked):
                 return f"mask: layers disagree at pixel ({i},{j})"
+            if dmasked and not lmasked and not any(k in nan_ids for k in allowed):
+                return f"mask: the density layer is masked at pixel ({i},{j}) although its cell {allowed} holds a value"
             if masked:
                 if -1 not in allowed:
                     return f"mask: pixel ({i},{j}) is masked but its sample point lies in loaded cell {allowed}"
@@ -198,8 +209,10 @@ def compare_thin(sc, p, ids, table, vec, f, scale, unit, den, nd, nx, ny):
                 else:
                     pu, pv = vv[0], vv[1]
                 want = (1.5 * k, 3 * k, pu, pv, math.hypot(pu, pv))
-                got = (float(dens["data"][j, i]), float(lev["data"][j, i])) + tuple(float(x) for x in vel["data"][j, i])
+                got = (float(np.ma.getdata(dens["data"])[j, i]), float(lev["data"][j, i])) + tuple(float(x) for x in vel["data"][j, i])
                 close = [abs(a - g) <= 1e-12 * max(1.0, abs(a)) for a, g in zip(want, got)]
+                if k in nan_ids:
+                    close[0] = dmasked          # an undefined cell value shows as missing in its own layer only
                 if all(close):
                     ok = True
                     break
